@@ -107,9 +107,10 @@ def router_check(pid, tier):
         "transitions": sum(r["model"]["transitions"] for r in results),
         "traces_validated_against_impl": sum(r["runs"] for r in results) + (fan_part["runs"] if fan_part else 0) + (sd_part["runs"] if sd_part else 0) + (pl_part["runs"] if pl_part else 0),
         "events_validated": sum(r["events"] for r in results) + (fan_part["events"] if fan_part else 0) + (sd_part["events"] if sd_part else 0) + (pl_part["events"] if pl_part else 0),
-        "exhaustive": True,
-        "models": [{k: m[k] for k in ("module", "cfg", "states", "transitions", "depth", "wall_s",
-                                       "action_coverage", "actions_never_taken")} for r in results for m in r["models"]],
+        "exhaustive": all(m.get("complete", True) for r in results for m in r["models"]),
+        "configurations_stopped_at_time_budget": [m["cfg"] for r in results for m in r["models"] if not m.get("complete", True)],
+        "models": [{k: m.get(k) for k in ("module", "cfg", "states", "transitions", "depth", "wall_s", "complete",
+                                           "action_coverage", "actions_never_taken")} for r in results for m in r["models"]],
         "schedules": {r["kind"]: r["schedules"] for r in results},
         "runs_flagged_for_this_property": len(viols),
         "runs_flagged_any_property": sum(r["n_viol"] for r in results),
